@@ -13,8 +13,12 @@ from .pipeline import Dump, apply_cfg, request
 from .tlc import run_tlc, validate_observations
 from .c13 import MC_CFG, T7, VAL_CONSTS, replay  # noqa
 
-CLASS_LISTS = [[], [4], [3, 4], [4, 4], [7], [1], [0x25], [0x1f], [4, 7, 3], [0], [255]]
-SUB_LISTS = [[], [0x40c], [0x40c, 0x0301], [0x0301], [0x701, 0x700], [0x2501], [0x1f05, 0x1f07], [0xffff]]
+CLASS_LISTS = [[], [4], [3, 4], [4, 4], [7], [1], [0x25], [0x1f], [4, 7, 3], [0], [255],
+               # numbers that are no class of any record (wider than 8 bits, an event id, a subclass): nothing matches them
+               [0x104], [0x040c], [0x04000000], [256 + 7, 3]]
+SUB_LISTS = [[], [0x40c], [0x40c, 0x0301], [0x0301], [0x701, 0x700], [0x2501], [0x1f05, 0x1f07], [0xffff],
+             # numbers that are no subclass of any record (wider than 16 bits: an event id as the code table lists it)
+             [0x040c0128], [0x040c0000, 0x0301], [0x1040c], [0x03010090], [0x040c0128, 0x07010000]]
 
 
 def run(ctx):
